@@ -4,6 +4,7 @@ import (
 	"fmt"
 	"testing"
 
+	"github.com/hattya/go.sh/interp"
 	"github.com/hattya/go.sh/parser"
 
 	"verifsim/gen"
@@ -44,6 +45,11 @@ func (c07) build(src *gen.Source) *Case {
 	if src.Chance(1, 3) {
 		c.Reader.Unread = "multi"
 	}
+	if src.Chance(1, 4) {
+		// a benign alias table (values keep every command well-formed): substitution at command position,
+		// trailing-blank aliases that make the next word eligible, a value spanning two lines
+		c.Aliases = [][2]string{{"cat", "cat -n "}, {"grep", "grep -q"}, {"ls", "ls -l "}, {"x1", "x1 "}, {"true", "true"}, {"_f", "_f a"}}
+	}
 	g := gen.NewG(src, o)
 	n := 1 + src.Intn(8)
 	for _, it := range g.Stream(n) {
@@ -83,7 +89,14 @@ func (c07) Judge(c *Case, obs []*Obs) []Finding {
 	start := 0
 	for i, end := range c.CmdEnds {
 		text := c.Src[start:end]
-		cmds, comments, err := parser.ParseCommands(nil, "sim", text)
+		var env *interp.ExecEnv
+		if len(c.Aliases) > 0 {
+			env = &interp.ExecEnv{Aliases: map[string]string{}}
+			for _, kv := range c.Aliases {
+				env.Aliases[kv[0]] = kv[1]
+			}
+		}
+		cmds, comments, err := parser.ParseCommands(env, "sim", text)
 		alone[i] = fmt.Sprintf("cmds=%s\ncomments=%s\n%s", Dump(cmds, 0), Dump(comments, 0), DumpErr(err))
 		if err != nil {
 			add(Finding{Class: "item-rejected", Detail: fmt.Sprintf("generated complete command %d is rejected on its own: %v; text %q", i, err, shortStr(text, 200))})
